@@ -229,8 +229,11 @@ def write_evidence(pid, tier, seed, aud, ctx, wall, nviol, checker_cmd):
         "wall_s": round(wall, 2),
         "violations": nviol,
     }
-    os.makedirs(os.path.join(core.VERIF, "evidence"), exist_ok=True)
-    with open(os.path.join(core.VERIF, "evidence", pid + ".json"), "w", encoding="utf-8") as f:
+    # seeded-change experiments (harness/seedcheck.py) redirect their evidence so that the committed
+    # evidence always comes from a run against the unmodified /repo
+    evdir = os.environ.get("VERIF_EVIDENCE_DIR") or os.path.join(core.VERIF, "evidence")
+    os.makedirs(evdir, exist_ok=True)
+    with open(os.path.join(evdir, pid + ".json"), "w", encoding="utf-8") as f:
         json.dump(ev, f, indent=1, ensure_ascii=False, default=str)
 
 
